@@ -14,7 +14,7 @@ import numpy as np
 from ..common import HarnessError, REPO, Report, VERIF, pmap
 
 PID = "C07"
-ACTS = ["draw17", "runother", "runother_seeded", "construct_only", "run_noisy", "options_logging"]
+ACTS = ["draw17", "runother", "runother_seeded", "construct_only", "run_noisy", "options_logging", "run_1d_narrow"]
 
 
 def problems(quick):
@@ -23,6 +23,7 @@ def problems(quick):
         for x0 in ("given", "absent"):
             for D in (1, 2):
                 ps.append(dict(kind=kind, x0=x0, D=D, mfe=40 if kind == "det" else 55))
+    ps.append(dict(kind="det", x0="absent", D=2, mfe=40, seed=0))   # random_seed = 0 is a seed like any other
     ps.append(dict(kind="heavy", x0="given", D=1, mfe=100))   # noise far above noise_size: GP refits take their high-noise retry branch
     if not quick:
         ps.append(dict(kind="heavy", x0="given", D=1, mfe=150))
@@ -51,7 +52,7 @@ def make_instance(p):
         log.update(np.float64(v).tobytes())
         return v
 
-    o = {"display": "off", "random_seed": 7, "max_fun_evals": p["mfe"], "noise_final_samples": 3}
+    o = {"display": "off", "random_seed": p.get("seed", 7), "max_fun_evals": p["mfe"], "noise_final_samples": 3}
     kw = dict(lower_bounds=np.full((1, D), -5.0), upper_bounds=np.full((1, D), 5.0), plausible_lower_bounds=np.full((1, D), -2.0), plausible_upper_bounds=np.full((1, D), 2.0))
     if p["x0"] == "given":
         kw["x0"] = np.full((1, D), 1.0)
@@ -70,6 +71,11 @@ def activity(a):
         if a == "runother_seeded":
             o["random_seed"] = 99
         BADS(lambda x: float(np.sum(np.asarray(x) ** 2)), x0=np.full((1, 3), 0.5), lower_bounds=np.full((1, 3), -3.0), upper_bounds=np.full((1, 3), 3.0), options=o).optimize()
+    elif a == "run_1d_narrow":
+        # a 1-D problem in a narrow box with enough evaluations for several search steps (its search populations are
+        # thinned differently by gridding / de-duplication / projection than those of the problems under test)
+        BADS(lambda x: float(np.sum((np.asarray(x) - 0.1) ** 2)), x0=np.full((1, 1), 0.05), lower_bounds=np.full((1, 1), -0.2), upper_bounds=np.full((1, 1), 0.3),
+             options={"display": "off", "max_fun_evals": 30, "random_seed": 4}).optimize()
     elif a == "construct_only":
         BADS(lambda x: 0.0, x0=np.zeros((1, 5)), plausible_lower_bounds=np.full((1, 5), -1.0), plausible_upper_bounds=np.full((1, 5), 1.0), options={"display": "off", "random_seed": 123})
     elif a == "run_noisy":
@@ -136,12 +142,17 @@ def histories(quick):
 
 
 def pkey(p):
-    return "%s/x0-%s/D%d" % (p["kind"], p["x0"], p["D"])
+    return "%s/x0-%s/D%d/mfe%d/seed%s" % (p["kind"], p["x0"], p["D"], p["mfe"], p.get("seed", 7))
 
 
 def replay(case, key):
     """Reproduced iff the digests of {history-free run, run after the history} are not all identical; up to three
     attempts, because the defect being replayed may itself be non-deterministic (that *is* a C07 violation)."""
+    if case.get("chain"):
+        # the exact history: the chain prefix replayed back to back in one fresh interpreter vs the history-free reference
+        co = _spawn((case["chain"], 0))
+        ref = _spawn(([[case["p"], [], []]], 0))[0]
+        return co[-1] != ref
     seen = set()
     for attempt in range(3):
         outs = pmap(_spawn, [([[case["p"], [], []]], attempt % 2), ([[case["p"], case["s1"], case["s2"]]], 0)])
@@ -179,9 +190,11 @@ def run(ctx):
     # one long-lived interpreter chains a sequence of cases (ever-growing history)
     chain = [c for i, c in enumerate(cases) if i % (7 if q else 5) == 0][: (25 if q else 120)]
     co = _spawn(([list(c) for c in chain], 0))
-    for (p, s1, s2), o in zip(chain, co):
+    for i, ((p, s1, s2), o) in enumerate(zip(chain, co)):
         if o != refs[pkey(p)]:
-            rep.violation("run with a fixed seed depends on process history (chained in one interpreter)", "history-dependent/%s/chained" % p["kind"], dict(problem=p, slot1=s1, slot2=s2), dict(p=p, s1=s1, s2=s2))
+            rep.violation("run with a fixed seed depends on process history (chained in one interpreter)", "history-dependent/%s/chained" % p["kind"],
+                          dict(problem=p, slot1=s1, slot2=s2, position_in_chain=i), dict(p=p, s1=s1, s2=s2, chain=[list(c) for c in chain[: i + 1]]))
+            break
     rep.set("states", len(cases) + len(chain))
     rep.set("transitions", acts + len(cases) + len(chain))
     rep.set("traces_validated_against_impl", len(cases) + len(chain) + 2 * len(ps))
